@@ -7,7 +7,7 @@
 From Coq Require Import List ZArith.
 From MV Require Import Datalog.Syntax Datalog.Interp Datalog.Solve Datalog.SemiNaive Datalog.Strata
      Datalog.Lfp Datalog.Naive Datalog.SolveProofs Datalog.SemiNaiveProofs Datalog.StrataProofs
-     Datalog.NaiveProofs.
+     Datalog.NaiveProofs Run.C20 Datalog.NaiveJudgeProofs.
 Import ListNotations.
 Open Scope Z_scope.
 
@@ -92,6 +92,20 @@ Theorem naive_round_budget_irrelevant :
     nloop fuel rules St = Ok Res -> nloop (fuel + m) rules St = Ok Res.
 Proof. intros. apply nloop_fuel_mono. assumption. Qed.
 Print Assumptions naive_round_budget_irrelevant.
+
+(* ---- the verdict of the correspondence runner (Run/C20.v): when both Go engines
+   finished and judge answers 0, the two observed fact sets are equal as sets (the
+   property holds on this input) and each equals what its model computes. *)
+Theorem judge_zero_sound :
+  forall (c : case) (gn gs : list fact),
+    c_naive c = OFacts gn -> c_semi c = OFacts gs -> judge c = 0 ->
+    (forall f, In f gn <-> In f gs) /\
+    exists mn ms,
+      naive_program (Z.to_nat (c_fuel c)) (c_prog c) (c_layers c) (c_store c) (c_init c) = Ok mn /\
+      eval_program (Z.to_nat (c_fuel c)) (c_prog c) (c_layers c) (c_store c) (c_init c) = Ok ms /\
+      (forall f, In f mn <-> In f gn) /\ (forall f, In f ms <-> In f gs).
+Proof. exact judge_zero. Qed.
+Print Assumptions judge_zero_sound.
 
 (* ---- non-vacuity: recursion, a same-round join, negation of the lower layer, an
    equality with a function application, a function application in a head.
